@@ -8,6 +8,8 @@ pub mod error;
 pub mod math;
 pub mod ring;
 pub mod sign;
+#[cfg(dashu_verif)]
+pub mod verif;
 
 /// Some useful utility functions that are also used internally in this crate.
 pub mod utils {
